@@ -235,6 +235,48 @@ def merge_label_corpus(ctx):
                               impl={"base": base, "relabelled": got}, key={"kind": "not-invariant"})
 
 
+def many_fragments_corpus(ctx):
+    """a heavily over-segmented prediction: one reference instance covered by 24-36 predicted fragments of pairwise different
+    sizes (every merge improves the score, so the merged set is all of them whatever the order), under the merge matcher;
+    the fragments' labels compact (1..n) versus sparse (multiples of 1000, values beyond 2^16 and up to 2^24 - 1, shuffled).
+    Library routines that take a *list of labels* may choose their algorithm by the length of the list and the spread of its
+    values, which no scene with a handful of instances reaches."""
+    rng = ctx.rng
+    for n in ((24, 36) if ctx.quick else (20, 24, 30, 36, 48)):
+        sizes = list(range(2, 2 + n))
+        rng.shuffle(sizes)
+        L = sum(sizes) + 6
+        ref = np.zeros((3, L), np.uint8)
+        pred = np.zeros((3, L), np.uint8)
+        ref[1, 2:2 + sum(sizes)] = 1
+        pos = 2
+        for k, sz in enumerate(sizes):
+            pred[1, pos:pos + sz] = k + 1
+            pos += sz
+        ref[0, 0:3] = 2
+        pred[0, 0:2] = n + 1
+        for mm in ("IOU", "DSC"):
+            cfg = E.mk_cfg("UNMATCHED", ["IOU", "DSC", "RVD"], matcher=E.merge(mm, (1, 100)))
+            base = E.run_impl(cfg, pred, ref)["ungrouped"]
+            for dt, f in ((np.uint16, lambda k: 1000 * k), (np.uint32, lambda k: 65536 + 4099 * k), (np.uint32, lambda k: 2 ** 24 - 1 - 37 * (k - 1) ** 2),
+                          (np.uint64, lambda k: (k * 7919) % 65521 + 1), (np.uint8, lambda k: 255 - 3 * (k - 1))):
+                sig = {k: int(f(k)) for k in range(1, n + 2)}
+                if len(set(sig.values())) != len(sig) or max(sig.values()) > np.iinfo(dt).max or min(sig.values()) < 1:
+                    continue
+                tau = {1: 5, 2: 3}
+                p2, r2 = relabel(pred, sig, dt), relabel(ref, tau, dt)
+                inp = {"shape": list(pred.shape), "pred": gen.arr_json(pred), "ref": gen.arr_json(ref), "cfg": cfg, "dtype": str(np.dtype(dt)),
+                       "sigma": {str(k): v for k, v in sig.items()}, "tau": {str(k): v for k, v in tau.items()}, "src": "corpus.many-fragments"}
+                ctx.case(inp, True)
+                ctx.count("many_fragments_corpus")
+                got = E.run_impl(cfg, p2, r2)
+                d = "raised " + got if isinstance(got, str) else summ_equal(base, got["ungrouped"], cfg["eval_metrics"])
+                if d:
+                    ctx.violation(f"result changes when {n} merged fragments are relabelled sparsely ({np.dtype(dt)}, merge matcher on {mm}): {d}", inp,
+                                  impl={"base": base, "relabelled": got}, key={"kind": "not-invariant"})
+                    break
+
+
 def wrap_sum_corpus(ctx):
     """an overlapping pair whose labels sum to 2^bits, far (> crop padding) from every other foreground voxel"""
     base_r = np.zeros((12, 24), np.uint8)
@@ -437,6 +479,7 @@ def run(ctx):
     grouped_relabel_cases(ctx, ctx.scale(60, 600))
     wrap_sum_corpus(ctx)
     merge_label_corpus(ctx)
+    many_fragments_corpus(ctx)
     near_tie_relabel(ctx, ctx.scale(4, 30))
     run_cases(ctx, ctx.scale(250, 2500), "rand")
 
